@@ -20,6 +20,7 @@ import copy
 from ..engine import Ctx
 from ..report import Report
 from ..rules import clone
+from ..rules import valnum
 from ..rules.linear import linform
 from ..source import AnalysisError
 from ..source import norm
@@ -167,10 +168,10 @@ def cursor(ctx: Ctx, rep: Report) -> None:
         x.stmt.targets[0]) == 'param']
     tst = [x for x in g.nodes if x.kind == 'test' and norm(
         x.stmt.test) == 'count > param_index']
-    ok = len(adv) == 1 and len(par) == 1 and len(tst) == 1 and norm(
-        adv[0].stmt.value) in WIDTHS and isinstance(adv[0].stmt.op, ast.Add)
+    w = norm(valnum.subst(ctx, f, adv[0], adv[0].stmt.value)) if adv else ''
+    ok = len(adv) == 1 and len(par) == 1 and len(tst) == 1 and (
+        w in WIDTHS) and isinstance(adv[0].stmt.op, ast.Add)
     lf = linform(par[0].stmt.value, par[0], rd) if ok else None
-    w = norm(adv[0].stmt.value) if adv else ''
     ok = ok and lf == {'param_index': 1, 'count': -1, w: 1}
     rep.check(
         ok, C, 'Circuit.get_param_location:offset', f.path, f.lineno,
